@@ -334,7 +334,12 @@ impl Run<'_> {
         // size; the input here is the value (≈ 16 bytes of JSON per node)
         static ZEROS: [u8; 1 << 23] = [0u8; 1 << 23];
         let size = (node_count(j) * 16).min(ZEROS.len());
-        let out = match ctx.run_case(&label, if ctx.trace { None } else { Some(&ZEROS[..size]) }, &|| (e.check)(j)) {
+        // Trace mode (driver re-run after a lost shard) records a file per
+        // run_case call; with millions of tiny cases that is prohibitive, so in
+        // trace mode the work item is the recorded unit (see `run`) and the
+        // case runs under the panic guard only.
+        let r = if ctx.trace { vf_core::guard(|| (e.check)(j)) } else { ctx.run_case(&label, Some(&ZEROS[..size]), &|| (e.check)(j)) };
+        let out = match r {
             Ok(o) => o,
             Err(p) => {
                 // a panic that escaped the per-stage guards is harness code or
@@ -718,9 +723,9 @@ pub fn run(ctx: &mut Ctx, args: &Args) {
     ctx.extra.insert("registered_types".into(), json!(entries.len()));
     ctx.extra.insert("donor_pool_keys".into(), json!(h.pools.keys()));
 
-    let seed_cap = ctx.tier.pick(48usize, 200);
-    let budget_nodes = ctx.tier.pick(1_000_000usize, 16_000_000);
-    let max_random = ctx.tier.pick(700usize, 9000);
+    let seed_cap = ctx.tier.pick(48usize, 150);
+    let budget_nodes = ctx.tier.pick(1_000_000usize, 12_000_000);
+    let max_random = ctx.tier.pick(700usize, 7000);
     let min_random = ctx.tier.pick(4usize, 16);
     let sweep_seeds = ctx.tier.pick(3usize, 10);
     let sweep_sites = ctx.tier.pick(100usize, 300);
@@ -762,6 +767,10 @@ pub fn run(ctx: &mut Ctx, args: &Args) {
                 continue;
             }
             run.stats[ti].seeds += 1;
+            if ctx.trace {
+                // record the work item as the unit a hang / abort is attributed to
+                let _ = ctx.run_case(&|| format!("work item {} type {} seed {} ({})", item - 1, e.name, si, seed.origin), None, &|| ());
+            }
             // (a) the seed itself
             run.case(ctx, ti, &seed.json, &seed.origin, if seed.typed { "seed(typed)" } else { "seed(structural)" });
             if NO_MUTATION.contains(&e.name) {
